@@ -56,6 +56,12 @@ def run_case(case, rec):
     rng = core.rng_for(case["seed"], PROP, name, case["k"])
     k = case["k"]
     pars = sas.base_pars(i, case["seed"]*977 + k, style="default" if k == 0 else "wide" if k % 3 == 2 else "random")
+    if name == "hollow_rectangular_prism":
+        # generator hygiene: the wall cannot be thicker than half the shortest side (documented constraint of the
+        # model; the wide parameter style draws the ratios independently of the thickness)
+        side = pars["length_a"]*min(1.0, pars["b2a_ratio"], pars["c2a_ratio"])
+        if 2.0*pars["thickness"] >= 0.95*side:
+            pars["thickness"] = 0.2*side
     # length parameters that default to zero switch a feature on (interfacial roughness, ...); the generic
     # generator leaves them near zero, so every third case sets them to a few percent of the particle size
     if k % 3 == 1:
@@ -150,7 +156,8 @@ def run_case(case, rec):
             # (b2a_ratio, x_core, ...); the (q*size)^2 error bound of the low-q law needs the true largest extent
             ext = size
             for p_ in i.parameters.kernel_parameters:
-                if p_.type == "volume" and p_.units == "" and p_.length == 1 and abs(pars.get(p_.name, 1.0)) > 1.0:
+                if p_.type == "volume" and (p_.units or "") in ("", "None", "none") and p_.length == 1 \
+                        and abs(pars.get(p_.name, 1.0)) > 1.0:
                     ext *= abs(pars[p_.name])
             qs = q*ext
             low = qs < 3e-2
